@@ -118,7 +118,10 @@ PanicOK(e) ==
 RegistryCalls == {"PushBlob", "MountBlob", "PushManifest", "DeleteBlob", "DeleteManifest", "DeleteTag", "GetBlob", "GetBlobRange",
                   "ResolveBlob", "GetManifest", "ResolveManifest", "GetTag", "ResolveTag"}
 \* the contents a push carries are contents of the catalogue (anything else is not what the first run pushed)
-KnownIds(e) == e.op \in {"PushBlob", "PushManifest"} => e.c \in Cids
+KnownIds(e) ==
+  /\ e.op \in {"PushBlob", "PushManifest"} => e.c \in Cids
+  /\ ("r" \in DOMAIN e) => e.r \in Repos \cup BadRepos
+  /\ ("from" \in DOMAIN e) => e.from \in Repos \cup BadRepos
 \* bottom-up order: a manifest's subject is stored before the manifest is pushed
 SubjFirst(e) ==
   (e.op = "PushManifest" /\ e.ok) =>
